@@ -140,9 +140,10 @@ def c14_1(ctx, ss):
     # __enter__ installs the constructor's patterns
     inst = [x for x in pf.calls_in(en.node) if txt(x.func).endswith("set_config")]
     okn = bool(inst) and any(kw.arg is None and txt(kw.value) == "self.new_config" for kw in inst[0].keywords)
-    st_new = [s for s in pf.iter_stmts(ini.node.body) if isinstance(s, ast.Assign) and txt(s.targets[0]) == "self.new_config"]
-    okd = len(st_new) == 1 and isinstance(st_new[0].value, ast.Dict) and \
-        {k.value: txt(v) for k, v in zip(st_new[0].value.keys, st_new[0].value.values)} == {"decay_pattern": "decay_pattern", "sub_decay_pattern": "sub_decay_pattern"}
+    from .common import dict_entries
+    from ..core.defuse import flow_of
+    ents, _sts, econd = dict_entries(ini, flow_of(ss, ini), "self.new_config")
+    okd = not econd and {k_.strip("'\""): txt(v) for k_, v in ents} == {"decay_pattern": "decay_pattern", "sub_decay_pattern": "sub_decay_pattern"}
     (ctx.holds if okn and okd else ctx.violation)("C14.1", f"{UTIL}:{C} :: installs-own", where(en, en.node),
                                                   "__enter__ installs the two patterns given to the constructor" if okn and okd
                                                   else "__enter__ does not install the constructor's two patterns in their own slots")
